@@ -1,12 +1,68 @@
 /-
-  Props.C12 — the theorems that decide property C12 (see DESIGN.md §7).
+  Props.C12 — a compiled expression is safe for concurrent use (DESIGN.md §7, C12).
+
+  (1) `C12_generated_writes_ok`: the write-site facts regenerated from /repo —
+      no reachable instruction writes to the compiled expression, to package
+      state or to the caller's documents.
+  (2) `C12_schedule_independent`, `C12_shared_unchanged`, `C12_no_conflicting_access`:
+      in the abstract machine of Spec/Threads.lean, under exactly that
+      hypothesis, EVERY interleaving of any number of calls gives each call the
+      run (program counter, private memory, hence result) it has alone, leaves
+      shared memory untouched, and contains no pair of conflicting accesses.
+  (3) in the model a compiled expression is a value and `searchCompiled` a
+      function, so the answer of a call cannot depend on other calls
+      (`C12_model_result_is_a_function`).
+  What the model cannot exhibit — the Go memory model below sequential
+  consistency, the race detector's happens-before — is covered by the run of
+  the real code under `-race` with N goroutines per compiled expression
+  (harness `race` mode), compared with the model's answers.
 -/
 import Props.Tables
+import Props.Writes
+import Proofs.Threads
+import Jmes.Api
 namespace Jmes.Props
-open Jmes
+open Jmes Jmes.Api
 
 theorem C12_generated_table_ok : TableOK Generated.table = true := generated_table_ok
 theorem C12_generated_sigs_ok : SigsOK Generated.functionTable Spec.functionTable = true := generated_sigs_ok
 theorem C12_generated_lex_ok : LexTablesOK Model.lexTables Spec.lexTables = true := generated_lex_ok
+
+theorem C12_generated_writes_ok : WritesOK GeneratedWrites.writeSites = true := generated_writes_ok
+
+section Machine
+variable {T L V PC : Type} [DecidableEq T] [DecidableEq L] (S : Threads.Sys T L V PC)
+
+/-- Every call returns what the same call returns when made alone: under any
+    schedule, call `t`'s program counter and every location it owns are those
+    of its solo run with the same number of steps. -/
+theorem C12_schedule_independent (hw : Threads.WritesPrivate S) (hr : Threads.ReadsOwn S)
+    (c : Threads.Conf T L V PC) (sched : List T) (t : T) :
+    (S.run c sched).pcs t = (S.run c (List.replicate (sched.count t) t)).pcs t ∧
+    ∀ l, S.owner l = some t → (S.run c sched).heap l = (S.run c (List.replicate (sched.count t) t)).heap l := by
+  have h := Threads.schedule_independent S hw hr c sched t
+  exact ⟨h.1, fun l hl => h.2 l (Or.inr hl)⟩
+
+/-- The compiled expression, library state and the documents are never written. -/
+theorem C12_shared_unchanged (hw : Threads.WritesPrivate S) (c : Threads.Conf T L V PC) (sched : List T) (l : L)
+    (hl : S.owner l = none) : (S.run c sched).heap l = c.heap l :=
+  Threads.shared_unchanged S hw c sched l hl
+
+/-- No data race: a location one call writes is neither shared nor another call's. -/
+theorem C12_no_conflicting_access (hw : Threads.WritesPrivate S) (t u : T) (hne : t ≠ u) (h : L → V) (pc : PC)
+    (lv : L × V) (hlv : lv ∈ (S.step t h pc).2) : ¬ (S.owner lv.1 = none ∨ S.owner lv.1 = some u) :=
+  Threads.no_conflicting_access S hw t u hne h pc lv hlv
+end Machine
+
+variable {N : Type} [NumOps N]
+
+/-- In the model the answer of a compiled search is a function of the compiled
+    AST and the document; the state an operation sequence threads through does
+    not enter it. -/
+theorem C12_model_result_is_a_function (cfg : Config) (s1 s2 : State N) (h d : Nat)
+    (hh : s1.handles.lookup h = s2.handles.lookup h) (hd : s1.docs.lookup d = s2.docs.lookup d) :
+    (step cfg s1 (.searchC h d)).2 = (step cfg s2 (.searchC h d)).2 := by
+  simp only [step, hh, hd]
+  split <;> rfl
 
 end Jmes.Props
